@@ -150,7 +150,7 @@ PROPS.update({
     "C19": dict(
         sub="c19", cfgs=["D", "C"],
         rule="all seven shipped copies of the front-end are compiled from the repository sources (build.rs cuts each file to helpers + parse_float and asserts that nothing else was edited) and run on every input; an independent longest-prefix recogniser of the grammar gives the consumed length, the sign and the exact decimal value, which the exact oracle turns into the expected bits (NaN/inf for the special literals of the fuzz/test copies). No panic on any input. Non-trivial: longer than 2 bytes.",
-        exhaustive_over={"quick": "TEXT(6): every byte string of length <= 6 over {+ - 0 1 9 . e E x NUL 0xFF / : 0xB2 0xBD} (12.2 M); every case variant of nan/inf/infinity x sign x 7 suffixes + near misses; structured product sign x 8 integers x 8 fractions x 14 exponents (incl. beyond i32) x 8 suffixes (21.5 k); 7 copies x f32/f64",
+        exhaustive_over={"quick": "TEXT(6): every byte string of length <= 6 over {+ - 0 1 9 . e E x NUL 0xFF / : 0xB2 0xBD} (12.2 M); every case variant of nan/inf/infinity x sign x 7 suffixes + near misses; structured product sign x 8 integers x 8 fractions x 26 exponents (incl. beyond i32 and at the limits of both float ranges) x 8 suffixes (39.9 k); 7 copies x f32/f64",
                          "thorough": "TEXT(8) over the 15 bytes (2.7 G strings)"},
         assumptions=ASSUME_EXACT[:1] + ["the grammar is the one in the property statement; the reference recogniser is independent code"]),
 })
